@@ -432,7 +432,7 @@ def run_case(case):
             cnt["fingerprints_compared"] += 1
             f2 = deep_fp(o)
             if f2 != fps[j]:
-                bad("c10.parsed-object-mutated", f"operation {op} on object {i} changed the state of pool object {j} ({texts[j][:80]}): {first_diff(fps[j], f2)}", step)
+                bad("c10.parsed-object-mutated", f"operation {op} on object {i} changed the state of pool object {j} ({(texts + sys_texts)[j][:80]}): {first_diff(fps[j], f2)}", step)
                 fps[j] = f2
     cnt["histories"] += 1
     cnt.update({k: v for k, v in trace.take_counters().items() if k.startswith("contract.molgen")})
